@@ -287,13 +287,21 @@ def _has_zero(r: list) -> bool:
 def present(rng: random.Random, r: list) -> list:
     """A re-presentation: factor order, product nesting, variable order on each side of the bar, range order."""
     t = r[0]
+
+    def pv(v: list) -> list:
+        # the order in which the interventions of a counterfactual variable are supplied (construction order of
+        # a frozenset: it decides the iteration order when two elements share a hash-table slot)
+        ints = list(v[2])
+        rng.shuffle(ints)
+        return [v[0], v[1], ints]
+
     if t == "P":
-        ch, pa = list(r[1]), list(r[2])
+        ch, pa = [pv(v) for v in r[1]], [pv(v) for v in r[2]]
         rng.shuffle(ch)
         rng.shuffle(pa)
         return ["P", ch, pa]
     if t == "PP":
-        ch, pa = list(r[2]), list(r[3])
+        ch, pa = [pv(v) for v in r[2]], [pv(v) for v in r[3]]
         rng.shuffle(ch)
         rng.shuffle(pa)
         return ["PP", r[1], ch, pa]
@@ -640,11 +648,23 @@ def run_inter_case(case: dict, explicit: bool = False) -> dict:
 
     def inter_pass() -> Any:
         if explicit or "schedule" in case:
-            s1 = Sched(mode="explicit", explicit=case.get("schedule") or [])
+            s1 = Sched(mode="explicit", explicit=case.get("schedule") or [], aborts=case.get("aborts") or [])
         else:
             pop = case["pop"]
+            aborts = []
+            arng = random.Random(f"{case['seed']}:C11i-abort:{case['scenario']}:{case['worker']}")
+            if arng.random() < 0.4:
+                # an injected abort inside one task: that task has no result to compare; the others still must
+                # give theirs, whatever the interrupted computation left behind
+                c = arng.choice(sorted(callers))
+                k = arng.randrange(len(callers[c]))
+                if arng.random() < 0.33:
+                    aborts.append({"c": c, "o": k, "after": arng.randint(1, 20), "exc": arng.choice(("mem", "int", "rt"))})
+                else:
+                    aborts.append({"c": c, "o": k, "l": arng.randint(1, arng.choice((10, 40, 150))),
+                                   "exc": arng.choice(("mem", "int", "rt"))})
             s1 = Sched(mode="prng", seed=f"{case['seed']}:C11i:{case['scenario']}:{case['worker']}", policy=pop["policy"],
-                       p=pop["p"], pct_d=pop["pct_d"], pct_k=max(10, sum(lines.values()) or 2000))
+                       p=pop["p"], pct_d=pop["pct_d"], pct_k=max(10, sum(lines.values()) or 2000), aborts=aborts)
         s1.run({c: mk_body(c, got, None) for c in sorted(callers)})
         return s1
 
@@ -659,6 +679,8 @@ def run_inter_case(case: dict, explicit: bool = False) -> dict:
         xv[f"{c}.{k}"] = val
         xd[f"{c}.{k}"] = digest(val)
     case["_rec_schedule"] = s1.schedule()
+    case["_rec_aborts"] = [{"c": a[0], "o": a[1], "l": a[2], "exc": a[3]} for a in s1.fired_aborts]
+    stats["aborts"] = len(s1.fired_aborts)
     stats["events"] = s0.events + s1.events
     stats["switches"] = s1.switches
     stats["hot_points"] = s1.hot_points
@@ -669,7 +691,7 @@ def run_inter_case(case: dict, explicit: bool = False) -> dict:
         stats["interleaving"] = digest(s1.log)
     for key in sorted(seq):
         a, b = seq[key], got.get(key)
-        if a == b:
+        if a == b or (b is not None and b[0] == "abort"):
             continue
         c, k = key
         if b is not None and b[0] == "raised" and a[0] == "ok":
@@ -687,8 +709,9 @@ def run_inter_case(case: dict, explicit: bool = False) -> dict:
 
 
 def explicit_inter(case: dict) -> dict:
-    out = copy.deepcopy({k: v for k, v in case.items() if k not in ("_rec_schedule", "pop")})
+    out = copy.deepcopy({k: v for k, v in case.items() if k not in ("_rec_schedule", "_rec_aborts", "pop")})
     out["schedule"] = case.get("_rec_schedule", case.get("schedule", []))
+    out["aborts"] = case.get("_rec_aborts", case.get("aborts", []))
     return out
 
 
@@ -805,7 +828,7 @@ def run_range(args: dict, out: Any) -> None:
             res = run_inter_case(case)
             done += 1
             st = res["stats"]
-            for k in ("events", "switches", "hot_points", "lock_waits"):
+            for k in ("events", "switches", "hot_points", "lock_waits", "aborts"):
                 agg[k] = agg.get(k, 0) + st.get(k, 0)
             agg["inter_scenarios"] = agg.get("inter_scenarios", 0) + 1
             agg["inter_tasks"] = agg.get("inter_tasks", 0) + sum(len(v) for v in case["callers"].values())
@@ -813,7 +836,7 @@ def run_range(args: dict, out: Any) -> None:
             if st["interleaving"]:
                 inter.add(st["interleaving"])
             line = {"t": "scen", "s": s, "w": wid, "hs": args["hashseed"], "xd": res["xd"], "io": res["io"],
-                    "ed": digest([res["xd"], case.get("_rec_schedule")])}
+                    "ed": digest([res["xd"], case.get("_rec_schedule"), case.get("_rec_aborts")])}
             if res["viol"]:
                 line["viol"] = res["viol"][:10]
                 line["case"] = explicit_inter(case)
